@@ -91,4 +91,12 @@ typedef struct { void *entry; void **slot; void *initial; } disp_t;
 int disp_bind(disp_t *d, void *entry);  /* remembers the (initial) value; must be called before first use of entry. 0 ok */
 void disp_rearm(disp_t *d);
 static inline void *disp_target(disp_t *d) { return *d->slot; }
+/* all dispatched entry points of the build (generated table) */
+typedef struct { const char *name; void *entry; } dispent_t;
+extern const dispent_t isal_dispatch_entries[];
+extern const int isal_dispatch_n;
+void disp_rearm_all(void);                      /* every entry resolves again on its next call */
+void force_vcpu(const char *name);              /* vcpu_set + disp_rearm_all ; harness error if unknown */
+void *disp_target_of(void *entry);              /* current binding of an entry (its resolver stub if unresolved) */
+int disp_is_resolved(void *entry);
 #endif
